@@ -158,6 +158,7 @@ func c10Kinds(c *Ctx, r *Report, a *Anchors) {
 	}
 	checked := map[string]bool{}
 	if argCheck != nil {
+		c.markRole(argCheck)
 		r.fnSeen(fnName(argCheck))
 		for _, b := range argCheck.Blocks {
 			for _, in := range b.Instrs {
@@ -242,6 +243,9 @@ func c10Arg(c *Ctx, r *Report, a *Anchors) {
 				if !ok || eq == g.val {
 					return false
 				}
+				if lk, isL := v.(*ssa.Lookup); isL && isArgDict(lk.X) {
+					return true
+				}
 				call, ok := v.(*ssa.Call)
 				return ok && c.isNamed(call.Type(), "Arg")
 			})
@@ -258,6 +262,9 @@ func c10Arg(c *Ctx, r *Report, a *Anchors) {
 							v, eq, ok := nilCmp(g.cond)
 							if !ok || eq != g.val {
 								return false
+							}
+							if lk, isL := v.(*ssa.Lookup); isL && isArgDict(lk.X) {
+								return true
 							}
 							cl, ok := v.(*ssa.Call)
 							return ok && c.isNamed(cl.Type(), "Arg")
@@ -308,7 +315,7 @@ func c10Req(c *Ctx, r *Report, a *Anchors, rule string) {
 				if ex, ok := t.Key.(*ssa.Extract); ok {
 					if nx, ok := ex.Tuple.(*ssa.Next); ok {
 						if rg, ok := nx.Iter.(*ssa.Range); ok {
-							if _, o, f, ok := loadOfField(rg.X); ok && o == "argList" && f == "dict" {
+							if isArgDict(rg.X) {
 								overDict = true
 							}
 						}
@@ -882,4 +889,22 @@ func dirUseLocation(c *Ctx, r *Report, rule string) {
 	if n == 0 {
 		r.undecided(rule, fnName(vdu)+": location-match flag", vdu.Pos(), "no test of a boolean flag found")
 	}
+}
+
+// isArgDict: the declared-argument table of a field definition (a load of argList.dict), or that table merged
+// with nil for "no definition / no arguments" (`var declared map[string]*Arg; if fd != nil { declared = fd.args.dict }`).
+func isArgDict(v ssa.Value) bool {
+	ls, _ := phiLeaves(v)
+	n := 0
+	for _, lf := range ls {
+		if isNilConst(lf.val) {
+			continue
+		}
+		if _, o, f, ok := loadOfField(lf.val); ok && o == "argList" && f == "dict" {
+			n++
+			continue
+		}
+		return false
+	}
+	return n > 0
 }
